@@ -394,6 +394,16 @@ class ReaderTranslator:
             if name == "_Stop":
                 return [("STOP",)], None, True
             return [("RAISE", name)], None, True
+        if isinstance(s, ast.If) and len(s.body) == 1 and len(s.orelse) == 1 and all(
+                isinstance(x, ast.Assign) and len(x.targets) == 1 and isinstance(x.targets[0], ast.Name) for x in (s.body[0], s.orelse[0])) \
+                and s.body[0].targets[0].id == s.orelse[0].targets[0].id:
+            # if c: v = A else: v = B   (no stream effect)  ==  v = A if c else B
+            ta, va = self.value(s.body[0].value, fi, env, depth)
+            tb, vb = self.value(s.orelse[0].value, fi, env, depth)
+            if not ta and not tb:
+                tt, tv_ = self.value(s.test, fi, env, depth)
+                env[s.body[0].targets[0].id] = ("ifexp", tv_, va, vb)
+                return tt, None, False
         if isinstance(s, ast.If):
             test = unparse(s.test)
             (a, ra) = self.block(s.body, fi, env, depth)
@@ -695,8 +705,21 @@ def _canon_sub(term, reads, val):
 
 
 def _collection_idiom(term: list) -> list:
-    """ALT(n, [PUSH T(stack[-n:]) after DEL stack[-n:]], [PUSH T()])  ==>  PUSHCOLL T n"""
+    """ALT(n, [PUSH T(stack[-n:]) after DEL stack[-n:]], [PUSH T()])  ==>  PUSHCOLL T n
+    also:  ALT(n, [DEL stack[-n:]], []) ; PUSH (T(stack[-n:]) if n else T())   (value built first, then the same stack effect)"""
     out = []
+    k = 0
+    while k + 1 < len(term):
+        a_, b_ = term[k], term[k + 1]
+        if a_[0] == "ALT" and b_[0] == "PUSH" and isinstance(b_[1], tuple) and b_[1] and b_[1][0] == "ifexp" and a_[3] == [] and len(a_[2]) == 1 and a_[2][0][0] == "DEL":
+            n = a_[1]
+            neg = ("neg", n)
+            _t, cond, va, vb = b_[1]
+            if cond == n and a_[2][0][1] == ("stack",) and a_[2][0][2] == ("slice", neg, None) and isinstance(va, tuple) and va[0] == "call" \
+                    and va[2] == (("getslice", ("stack",), ("slice", neg, None)),) and vb in (("call", va[1], ()), ("call", va[1], (("tuplelit", ()),)), ("call", va[1], (("const", ()),))):
+                term = term[:k] + [("PUSHCOLL", va[1], n)] + term[k + 2:]
+                continue
+        k += 1
     for tok in term:
         if tok[0] == "ALT":
             n, a, b = tok[1], tok[2], tok[3]
